@@ -239,8 +239,10 @@ def shard(shard_no, nshards, seed, tier, extra):
             js2, what = inj
             r2 = d.call({"op": "unify", "nvars": nvars, "judgements": js2, "budget": 200_000, "rand_seed": rng.getrandbits(48)}, timeout=120)
             judge(res, nvars, js2, classes, r2, injected=what)
-            res.violations = [dict(v, case={k: (x if k != "injected" or x is None else {"expr": x["expr"], "members": x["class"]["members"]})
-                                            for k, x in v["case"].items()}) for v in res.violations]
+            for v in res.violations:
+                inj_info = v["case"].get("injected")
+                if isinstance(inj_info, dict) and "class" in inj_info:
+                    v["case"] = dict(v["case"], injected={"expr": inj_info["expr"], "members": inj_info["class"]["members"]})
         if i < 2:
             res.sample({"nvars": nvars, "judgements": js[:10], "classes": [{k: v for k, v in c.items() if k != "emitted"} for c in classes][:3]})
     d.stop()
